@@ -234,13 +234,14 @@ func (L *prodLog) byteChange(i, off int, nb byte, variant string) edit {
 }
 
 // genEdits enumerates the edits of one log and hands each to yield.
-func (L *prodLog) genEdits(r *gen.Rand, byteBudget int, yield func(edit)) {
+// light: (thorough tier, many logs) every byte only for every 4th small log, and a seeded half of the cut points / tag replacements.
+func (L *prodLog) genEdits(r *gen.Rand, byteBudget int, light bool, yield func(edit)) {
 	n := len(L.lines)
 	format := L.spec.format
 	chain, cidx := L.chainIndex()
 
 	// --- byte changes
-	exhaustive := len(L.data) <= 2048
+	exhaustive := len(L.data) <= 2048 && (!light || r.Intn(4) == 0)
 	for _, i := range L.prot {
 		line := L.lines[i]
 		v := &L.views[i]
@@ -435,14 +436,15 @@ func (L *prodLog) genEdits(r *gen.Rand, byteBudget int, yield func(edit)) {
 		}
 		seen := map[int]bool{}
 		for _, c := range cuts {
-			if c < 0 || c >= len(line) || seen[c] {
+			if c < 0 || c >= len(line) || seen[c] || (light && r.Intn(2) == 0) {
 				continue
 			}
 			seen[c] = true
 			reg := v.region(format, c)
 			nl := append([]byte{}, line[:c]...)
 			markerLost := c < v.marker.to
-			cleanStrip := format != "json" && v.chainMark.to > 0 && c == v.chainMark.from
+			// what is left is the entry without its new-chain marker (cef: white space after the tag is not part of the entry)
+			cleanStrip := format != "json" && v.chainMark.to > 0 && (c == v.chainMark.from || (format == "cef" && c > v.tag.to && len(bytes.TrimSpace(line[v.tag.to:c])) == 0))
 			// entry cut short, later lines kept
 			e := L.inPlace("truncate-entry", reg, i, nl, markerLost)
 			if e.judged && cleanStrip && L.prevProt(i) < 0 {
@@ -488,6 +490,9 @@ func (L *prodLog) genEdits(r *gen.Rand, byteBudget int, yield func(edit)) {
 			cands = append(cands, struct{ name, tag string }{"of-next-entry", string(L.lines[p][L.views[p].tag.from:L.views[p].tag.to])})
 		}
 		for _, c := range cands {
+			if light && r.Intn(2) == 0 {
+				continue
+			}
 			e := L.inPlace("replace-tag-"+c.name, "tag", i, withTag(c.tag), false)
 			yield(e)
 		}
